@@ -4,6 +4,10 @@ pub mod c02;
 pub mod c04;
 pub mod c03;
 pub mod c10;
+pub mod c14;
+pub mod c15;
+pub mod c16;
+pub mod c18;
 pub mod c11;
 pub mod c12;
 pub mod c13;
@@ -25,6 +29,10 @@ pub fn run(ctx: &Ctx) -> i32 {
         "C04" => c04::run(ctx),
         "C03" => c03::run(ctx),
         "C10" => c10::run(ctx),
+        "C14" => c14::run(ctx),
+        "C15" => c15::run(ctx),
+        "C16" => c16::run(ctx),
+        "C18" => c18::run(ctx),
         "C11" => c11::run(ctx),
         "C12" => c12::run(ctx),
         "C13" => c13::run(ctx),
